@@ -112,6 +112,24 @@ fn m_build_inner(start: MStart, hist: &[MOp], ids: &[u32]) -> Result<(Vec<u32>, 
     let text = serde_json::to_string(&m).map_err(|e| ("serde-ser".to_string(), e.to_string()))?;
     let back: Mapping<NameId, u32> = serde_json::from_str(&text).map_err(|e| ("serde-de".to_string(), format!("{e} on {text}")))?;
     m_observe(&back, &r, ids, "after serde round trip: ")?;
+    // a deserialised mapping is a mapping like any other: serialise it again, and keep using it
+    let text2 = serde_json::to_string(&back).map_err(|e| ("serde-ser".to_string(), e.to_string()))?;
+    let back2: Mapping<NameId, u32> = serde_json::from_str(&text2).map_err(|e| ("serde-de".to_string(), format!("{e} on {text2}")))?;
+    m_observe(&back2, &r, ids, "after a second serde round trip: ")?;
+    let mut back = back;
+    let mut r2 = r.clone();
+    for (k, &id) in [3u32, 130].iter().enumerate() {
+        let v = 9000 + k as u32;
+        if back.insert(NameId(id), v) != r2.insert(id, v) {
+            return Err(("serde-insert-return".into(), format!("insert({id}) on a deserialised mapping returned something else than the reference")));
+        }
+    }
+    let mut ids2 = ids.to_vec();
+    ids2.extend([3u32, 130]);
+    m_observe(&back, &r2, &ids2, "after inserts into a deserialised mapping (serde): ")?;
+    let text3 = serde_json::to_string(&back).map_err(|e| ("serde-ser".to_string(), e.to_string()))?;
+    let back3: Mapping<NameId, u32> = serde_json::from_str(&text3).map_err(|e| ("serde-de".to_string(), format!("{e} on {text3}")))?;
+    m_observe(&back3, &r2, &ids2, "after inserts into a deserialised mapping and a further serde round trip: ")?;
     Ok((r.keys().copied().collect(), max_ever as usize, m.slots()))
 }
 
